@@ -391,7 +391,11 @@ func (p *Process) internalStop() error {
 func (p *Process) stopProcess(cancelReadinessFuncs bool) error {
 	verifPoint(p, "stop_enter", cancelReadinessFuncs)
 	defer verifPoint(p, "stop_return")
-	p.runCancelFn()
+	if cancelReadinessFuncs {
+		// an internal stop (readiness probe failure) must leave the run context alive:
+		// the restart policy decides in run() whether the process is launched again
+		p.runCancelFn()
+	}
 	if !p.isRunning() {
 		log.Debug().Msgf("process %s is in state %s not shutting down", p.getName(), p.getStatusName())
 		// prevent pending process from running
@@ -413,17 +417,19 @@ func (p *Process) stopProcess(cancelReadinessFuncs bool) error {
 	if isStringDefined(p.procConf.ShutDownParams.ShutDownCommand) {
 		return p.doConfiguredStop(p.procConf.ShutDownParams)
 	}
-	err := p.command.Stop(p.procConf.ShutDownParams.Signal, p.procConf.ShutDownParams.ParentOnly)
+	// the command that is being stopped: after an internal stop run() may launch a new one
+	cmd := p.command
+	err := cmd.Stop(p.procConf.ShutDownParams.Signal, p.procConf.ShutDownParams.ParentOnly)
 	if err != nil {
 		log.Error().Err(err).Msgf("terminating %s failed", p.getName())
 	}
 	if p.procConf.ShutDownParams.ShutDownTimeout != UndefinedShutdownTimeoutSec {
-		return p.forceKillOnTimeout()
+		return p.forceKillOnTimeout(cmd)
 	}
 	return err
 }
 
-func (p *Process) forceKillOnTimeout() error {
+func (p *Process) forceKillOnTimeout(cmd command.Commander) error {
 	p.mtxStopFn.Lock()
 	p.waitForStoppedCtx, p.waitForStoppedFn = context.WithTimeout(context.Background(), time.Duration(p.procConf.ShutDownParams.ShutDownTimeout)*time.Second)
 	p.mtxStopFn.Unlock()
@@ -434,7 +440,7 @@ func (p *Process) forceKillOnTimeout() error {
 		return nil
 	case errors.Is(err, context.DeadlineExceeded):
 		log.Debug().Msgf("process failed to shut down within %d seconds, sending %d", p.procConf.ShutDownParams.ShutDownTimeout, syscall.SIGKILL)
-		return p.command.Stop(int(syscall.SIGKILL), p.procConf.ShutDownParams.ParentOnly)
+		return cmd.Stop(int(syscall.SIGKILL), p.procConf.ShutDownParams.ParentOnly)
 	default:
 		log.Error().Err(err).Msgf("terminating %s with timeout %d failed", p.getName(), p.procConf.ShutDownParams.ShutDownTimeout)
 		return err
